@@ -217,6 +217,9 @@ func init() {
 					// whatever the proxy makes of it, the next exchange on the tunnel is the client's next request
 					phantom := "GET /phantom HTTP/1.1\r\nHost: phantom.example\r\n\r\n"
 					bh := r.Pick([]string{"@ORIGIN@", "127.0.0.1:1234x", "a b", "[::1", "%zz", "@ORIGIN@:99999", ""})
+					if r.Chance(40) {
+						bh = "@ORIGIN@" // an ordinary Host: the request is cacheable, so a repetition is answered from the store
+					}
 					bm := r.Pick([]string{"POST", "PUT", "GET", "DELETE"})
 					bt := r.Pick([]string{"/first", "http://@ORIGIN@/first", "/%zz", "*"})
 					var bhead string
@@ -226,6 +229,12 @@ func init() {
 						bhead = fmt.Sprintf("%s %s HTTP/1.1\r\nHost: %s\r\nTransfer-Encoding: chunked\r\n\r\n%x\r\n%s\r\n0\r\n\r\n", bm, bt, bh, len(phantom), phantom)
 					}
 					emit("rr", "tunnel2", hx(bhead))
+					if bm == "GET" && r.Chance(70) {
+						// the same exchange again: when the first one was stored, this one is answered from the cache WITHOUT the
+						// handler reading the request body - the body bytes must still not be taken for the next request
+						emit("rr", "tunnel2", hx(bhead))
+						o.Count("tunnel2:repeated-get-with-body")
+					}
 				}
 			}
 		},
